@@ -31,7 +31,7 @@ class C01(Check):
         "float leaves lie within IEEE single range; ints under float/double within +-2^63",
     ]
     required_labels = ["s:union", "s:ref", "s:recursive", "d:varint10", "d:coll>=64", "d:nan", "form:parsed", "form:raw", "multi-value", "omitted-default"]
-    quick = (2200, 1)
+    quick = (5000, 1)
     thorough = (12000, 16)
 
     def __init__(self):
